@@ -1,6 +1,8 @@
 // sc_sample.cpp - scenario "sample": every sampler and hash-to-X entry point driven by the
 // simulator's random stream under stream faults, judged by M-sample (C10), plus target-group
 // exponentiation with stream-derived and boundary exponents (C07).
+#include <functional>
+#include <pthread.h>
 #include "core.hpp"
 #include "wkd_model.hpp"
 #include "wkd_wire.hpp"
@@ -28,6 +30,15 @@ struct SampleRun {
             else if (kind == "tuple") tuple(arg == "r" ? K().r : arg == "r+1" ? Bn::add(K().r, Bn(1)) : arg == "r-1" ? Bn::sub(K().r, Bn(1)) : arg == "0" ? Bn(0) : arg == "1" ? Bn(1) : arg == "x" ? K().absx : Bn(2));
             else if (kind == "carry") { Bn d[4]; if (carry_tuple(n, (uint64_t) env.step * 131 + env.lib_calls, d)) { for (int i = 0; i < 4; i++) push(8, d[i]); env.count("probe:random_exponent_digits_with_carry_through_all_ones_limb"); } }
             else if (kind == "torsion1" || kind == "torsion2") { int g = kind == "torsion1" ? 1 : 2; std::vector<uint8_t> raw; if (torsion_candidate_raw(R, g, (uint64_t) n, raw)) { env.stream.push(48, std::vector<uint8_t>(raw.begin(), raw.begin() + 48)); if (g == 2) env.stream.push(48, std::vector<uint8_t>(raw.begin() + 48, raw.end())); env.stream.push(1, std::vector<uint8_t>(1, (uint8_t) (n & 1))); } }
+            else if (kind == "nostorm1" || kind == "nostorm2") {   // n consecutive candidates that are field elements but not x coordinates of curve points
+                int g = kind == "nostorm1" ? 1 : 2; Rng rr((uint64_t) n * 77 + 5); Buf aff(R.sz(g == 1 ? JV_SZ_G1A : JV_SZ_G2A)); int pushed = 0;
+                for (int t = 0; t < 4 * n && pushed < n; t++) {
+                    uint8_t raw[96]; rr.fill(raw, 96); raw[47] &= 0x0F; raw[95] &= 0x0F; uint8_t xle[96]; fq_canon(raw).to_le(xle, 48); if (g == 2) fq_canon(raw + 48).to_le(xle + 48, 48);
+                    int ok = g == 1 ? R.jv_g1a_from_x(aff, xle, 0) : R.jv_g2a_from_x(aff, xle, 0); if (ok) continue;
+                    env.stream.push(48, std::vector<uint8_t>(raw, raw + 48)); if (g == 2) env.stream.push(48, std::vector<uint8_t>(raw + 48, raw + 96)); env.stream.push(1, std::vector<uint8_t>(1, (uint8_t) t)); pushed++;
+                }
+                env.count("probe:scripted_candidates_without_y", (uint64_t) pushed); env.stream.limit += (size_t) 4 * (size_t) n;
+            }
             else if (kind == "sign") { std::vector<uint8_t> b(1, (uint8_t) n); env.stream.push(1, b); }
             else if (kind == "const") { for (int i = 0; i < 6; i++) { env.stream.push(8, std::vector<uint8_t>(8, (uint8_t) n)); } env.stream.push(32, std::vector<uint8_t>(32, (uint8_t) n)); env.stream.push(48, std::vector<uint8_t>(48, (uint8_t) n)); }
             env.count("fault:stream_" + kind);
@@ -73,7 +84,7 @@ struct SampleRun {
     // M-sample for sample_random_generator
     template <int G> bool model_generator(SampleCursor& c, std::string& canon_out, uint64_t& rounds) {
         Buf aff(R.sz(G == 1 ? JV_SZ_G1A : JV_SZ_G2A));
-        for (rounds = 0; rounds < 4000; rounds++) {
+        for (rounds = 0; rounds < 40000; rounds++) {
             uint8_t xle[96]; memset(xle, 0, 96);
             // Fq::random fills the element's internal (Montgomery) representation with the accepted bytes:
             // the field element drawn is bytes * 2^-384 mod q.
@@ -100,13 +111,24 @@ struct SampleRun {
         return false;
     }
 
+    // The library call on a thread with a small stack (an RTOS task, a fibre): a sampler whose stack use grows with the number of rejected
+    // candidates runs off it; one whose stack use is constant does not notice.
+    static void* small_stack_tramp(void* p) { auto* f = static_cast<std::function<void()>*>(p); (*f)(); return nullptr; }
+    void run_on_small_stack(size_t bytes, std::function<void()> body) {
+        Stream* st = tl_stream; HashStub* hs = tl_hash;
+        std::function<void()> f = [&] { tl_stream = st; tl_hash = hs; body(); };
+        pthread_attr_t at; pthread_attr_init(&at); pthread_attr_setstacksize(&at, bytes); pthread_t th;
+        if (pthread_create(&th, &at, small_stack_tramp, &f) != 0) { body(); return; }
+        pthread_join(th, nullptr); pthread_attr_destroy(&at); env.count("fault:call_made_on_a_thread_with_a_small_stack");
+    }
     void op_gen(const Op& op) {
         int g = (int) op.arg(1) % 2 + 1, which = (int) op.arg(2) % 2;
         begin((uint64_t) op.arg(0), op.s); env.stream.limit += 64;
         std::string got, want; uint64_t rounds = 0; const char* nm = g == 1 ? (which ? "random_g1" : "g1_random") : (which ? "random_g2" : "g2_random");
         Buf aff(R.sz(g == 1 ? JV_SZ_G1A : JV_SZ_G2A)); int st;
-        if (g == 1) { G1v p; if (which) R.jv_wk_random_g1(view, p.b, jv_rand_cb); else R.jv_g1_random(view, p.b, jv_rand_cb); got = w.c1(p); R.jv_g1affine_from_projective(1, aff, p.b); st = R.jv_g1a_status(aff); }
-        else { G2v p; if (which) R.jv_wk_random_g2(view, p.b, jv_rand_cb); else R.jv_g2_random(view, p.b, jv_rand_cb); got = w.c2(p); R.jv_g2affine_from_projective(1, aff, p.b); st = R.jv_g2a_status(aff); }
+        bool small = false; for (auto& t : op.s) if (t.compare(0, 7, "nostorm") == 0) small = true;
+        if (g == 1) { G1v p; auto call = [&] { if (which) R.jv_wk_random_g1(view, p.b, jv_rand_cb); else R.jv_g1_random(view, p.b, jv_rand_cb); }; if (small) run_on_small_stack(128 * 1024, call); else call(); got = w.c1(p); R.jv_g1affine_from_projective(1, aff, p.b); st = R.jv_g1a_status(aff); }
+        else { G2v p; auto call = [&] { if (which) R.jv_wk_random_g2(view, p.b, jv_rand_cb); else R.jv_g2_random(view, p.b, jv_rand_cb); }; if (small) run_on_small_stack(128 * 1024, call); else call(); got = w.c2(p); R.jv_g2affine_from_projective(1, aff, p.b); st = R.jv_g2a_status(aff); }
         env.check(!(st & 1), "C10", "sample:generator-non-identity", std::string(nm) + " returned the identity");
         env.check((st & 2) != 0, "C10", "sample:generator-on-curve", std::string(nm) + " returned a point off the curve");
         env.check((st & 4) != 0, "C10", "sample:generator-in-subgroup", std::string(nm) + " returned a point outside the order-r subgroup");
@@ -267,7 +289,7 @@ struct SampleScenario : Scenario {
         int n = r.range(4, 24);
         static const char* f8[] = {"storm8:3", "storm8:7", "storm8:40", "digit:xm1", "digit:x", "tuple:r", "tuple:r+1", "tuple:r-1", "tuple:0", "tuple:1", "tuple:x", "const:255", "const:0", "carry:0", "carry:1"};
         static const char* f32[] = {"storm32:2", "storm32:9", "storm32:60", "fr:r-1", "fr:r", "fr:r+1", "fr:0", "fr:r-1hi", "const:255", "const:0", "const:127"};
-        static const char* f48[] = {"storm48:2", "storm48:11", "fq:q-1", "fq:q", "fq:q+1", "fq:0", "fq:q-1hi", "sign:0", "sign:1", "sign:254", "const:255", "const:0", "torsion1:3", "torsion2:5", "torsion1:8", "torsion2:12"};
+        static const char* f48[] = {"storm48:2", "storm48:11", "fq:q-1", "fq:q", "fq:q+1", "fq:0", "fq:q-1hi", "sign:0", "sign:1", "sign:254", "const:255", "const:0", "torsion1:3", "torsion2:5", "torsion1:8", "torsion2:12", "nostorm1:40", "nostorm2:25", "nostorm1:2000"};
         auto faults = [&](const char** tab, size_t nt) { std::vector<std::string> v; if (r.chance(1, 2)) return v; int k = r.range(1, 3); for (int i = 0; i < k; i++) v.push_back(tab[r.below(nt)]); return v; };
         static const char* kcodes[] = {"0", "1", "2", "r-1", "r", "r+1", "2r", "2r+1", "max", "2^255", "2^64", "2^64+3", "2^64-1", "2^100+12345", "2^128-1", "2^128", "2^192", "2^32", "2^63", "2^127+1", "xd:x:0:0:0+r", "xd:x:5:0:0+r", "xd:xp1:0:0:1+r", "xd:m1:m1:0:0", "xd:1:0:0:0+r", "xd:0:1:0:m1+r", "xd:m1:0:0:0+r", "xd:x:m1:0:0+r"};
         for (int i = 0; i < n; i++) {
@@ -275,7 +297,7 @@ struct SampleScenario : Scenario {
             if (focus == 7) k = r.chance(3, 4) ? r.range(4, 6) : k;
             if (focus == 10) k = r.chance(3, 4) ? (r.chance(1, 2) ? r.range(0, 3) : r.range(7, 9)) : k;
             if (k <= 1) { int which = r.range(0, 3); p.ops.push_back({"ZP", {ss, which}, which == 2 ? faults(f8, 15) : which == 3 ? faults(f48, 7) : faults(f32, 11)}); }
-            else if (k <= 3) p.ops.push_back({"GEN", {ss, r.range(0, 1), r.range(0, 1)}, faults(f48, 16)});
+            else if (k <= 3) p.ops.push_back({"GEN", {ss, r.range(0, 1), r.range(0, 1)}, faults(f48, r.chance(1, 6) ? 19 : 18)});
             else if (k <= 5) p.ops.push_back({"GTR", {ss, (int64_t) r.below(8), r.chance(1, 4), r.chance(1, 3)}, faults(f8, 15)});
             else if (k == 6) p.ops.push_back({"GTPOW", {(int64_t) r.below(8), r.chance(1, 3) ? 1 + 2 * (int64_t) r.below(3) : 0}, {r.chance(1, 3) ? "x" + rhex(r, 32) : std::string(kcodes[r.below(28)])}});
             else if (k == 7) {
